@@ -1079,17 +1079,23 @@ func (g *c09Rig) decide(cfg config.Config, tr *c09Trace, v c09Variant, order []i
 
 // c09Probe is a single-mechanism sampler used only to NAME a disagreement that the full
 // configuration has already shown.
-type c09Probe struct {
+type c09Part struct {
 	Mechanism string
 	Fields    []string
-	Sampler   c09Sampler
-	cfg       config.Config
 }
 
-func c09Probes(s c09Sampler) []*c09Probe {
+type c09Probe struct {
+	Parts   []c09Part // what the probe reads: one condition / key field, or all conditions of one rule
+	Sampler c09Sampler
+	cfg     config.Config
+}
+
+// c09Probes: level 0 = one condition or one key field; level 1 = one whole rule (its
+// conditions have to hold together, on one span for span scope).
+func c09Probes(s c09Sampler, level int) []*c09Probe {
 	var out []*c09Probe
 	dynProbes := func(d *c09Dyn) {
-		if d == nil || d.Kind == "DeterministicSampler" {
+		if d == nil || d.Kind == "DeterministicSampler" || level != 0 {
 			return
 		}
 		for _, f := range d.FieldList {
@@ -1097,17 +1103,25 @@ func c09Probes(s c09Sampler) []*c09Probe {
 			if strings.HasPrefix(f, "root.") {
 				m = "key/root-field"
 			}
-			out = append(out, &c09Probe{Mechanism: m, Fields: []string{f},
+			out = append(out, &c09Probe{Parts: []c09Part{{m, []string{f}}},
 				Sampler: c09Sampler{Dyn: &c09Dyn{Kind: "DynamicSampler", Rate: 1, FieldList: []string{f}}}})
 		}
 	}
 	dynProbes(s.Dyn)
 	for _, r := range s.Rules {
-		for _, c := range r.Conds {
-			out = append(out, &c09Probe{Mechanism: "rules/" + c.class(), Fields: c.Fields,
-				Sampler: c09Sampler{Rules: []c09Rule{{Name: "probe", Scope: r.Scope, Conds: []c09Cond{c}, SampleRate: 1}}}})
+		if level == 0 {
+			for _, c := range r.Conds {
+				out = append(out, &c09Probe{Parts: []c09Part{{"rules/" + c.class(), c.Fields}},
+					Sampler: c09Sampler{Rules: []c09Rule{{Name: "probe", Scope: r.Scope, Conds: []c09Cond{c}, SampleRate: 1}}}})
+			}
+			dynProbes(r.Down)
+		} else if len(r.Conds) > 1 {
+			p := &c09Probe{Sampler: c09Sampler{Rules: []c09Rule{{Name: "probe", Scope: r.Scope, Conds: r.Conds, SampleRate: 1}}}}
+			for _, c := range r.Conds {
+				p.Parts = append(p.Parts, c09Part{"rules/" + c.class(), c.Fields})
+			}
+			out = append(out, p)
 		}
-		dynProbes(r.Down)
 	}
 	return out
 }
@@ -1140,10 +1154,11 @@ func (g *c09Rig) runCase(tr *c09Trace, smp c09Sampler, variants []c09Variant, or
 			map[string]any{"trace": tr, "sampler": smp, "eval": refEval})
 		return
 	}
-	probes := c09Probes(smp)
+	probes := c09Probes(smp, 0)
+	ruleProbes := c09Probes(smp, 1)
 	mechs := map[string]bool{}
 	for _, p := range probes {
-		mechs[p.Mechanism] = true
+		mechs[p.Parts[0].Mechanism] = true
 	}
 	var ms []string
 	for m := range mechs {
@@ -1175,49 +1190,64 @@ func (g *c09Rig) runCase(tr *c09Trace, smp c09Sampler, variants []c09Variant, or
 			return []string{sig}
 		}
 		set := map[string]bool{}
-		for _, p := range probes {
-			pc := probeCfg(p)
-			ea, sa, p1, _ := g.decide(pc, tr, ref, ident)
-			eb, sb, p2, _ := g.decide(pc, tr, v, ident)
-			if p1 != "" || p2 != "" {
-				continue
-			}
-			if same, _ := c09Same(ea.Out, eb.Out); same {
-				continue
-			}
-			pairs := c09TypePairs(p.Fields, sa, sb, rootIdx, -1)
-			if len(pairs) > 1 {
-				// narrow down: re-encode only the spans that show one wire-type class
-				var narrowed []string
-				for _, cls := range pairs {
-					h := c09Variant{Name: "hybrid-" + cls, Shuffle: v.Shuffle, Enc: append([]c09Enc(nil), ref.Enc...)}
-					for i := 0; i < n; i++ {
-						for _, pr := range c09TypePairs(p.Fields, sa, sb, rootIdx, i) {
-							if pr == cls {
-								h.Enc[i] = v.Enc[i]
+		for _, level := range [][]*c09Probe{probes, ruleProbes} {
+			for _, p := range level {
+				pc := probeCfg(p)
+				ea, sa, p1, _ := g.decide(pc, tr, ref, ident)
+				eb, sb, p2, _ := g.decide(pc, tr, v, ident)
+				if p1 != "" || p2 != "" {
+					continue
+				}
+				if same, _ := c09Same(ea.Out, eb.Out); same {
+					continue
+				}
+				// candidates: (what the probe reads, wire-type class seen there)
+				type cand struct {
+					part c09Part
+					cls  string
+				}
+				var cands []cand
+				for _, part := range p.Parts {
+					for _, cls := range c09TypePairs(part.Fields, sa, sb, rootIdx, -1) {
+						cands = append(cands, cand{part, cls})
+					}
+				}
+				if len(cands) > 1 {
+					// narrow down: re-encode only the spans that show one class for one part
+					var narrowed []cand
+					for _, c := range cands {
+						h := c09Variant{Name: "hybrid-" + c.cls, Shuffle: v.Shuffle, Enc: append([]c09Enc(nil), ref.Enc...)}
+						for i := 0; i < n; i++ {
+							for _, pr := range c09TypePairs(c.part.Fields, sa, sb, rootIdx, i) {
+								if pr == c.cls {
+									h.Enc[i] = v.Enc[i]
+								}
 							}
 						}
+						eh, _, ph, _ := g.decide(pc, tr, h, ident)
+						if ph != "" {
+							continue
+						}
+						if same, _ := c09Same(ea.Out, eh.Out); !same {
+							narrowed = append(narrowed, c)
+						}
 					}
-					eh, _, ph, _ := g.decide(pc, tr, h, ident)
-					if ph != "" {
-						continue
-					}
-					if same, _ := c09Same(ea.Out, eh.Out); !same {
-						narrowed = append(narrowed, cls)
+					// no single class reproduces it: the disagreement needs several of them at
+					// once (e.g. a trace-scope condition satisfied by an integer on one span and
+					// by a float on another); every class involved is named
+					if len(narrowed) > 0 {
+						cands = narrowed
 					}
 				}
-				// no single class reproduces it: the disagreement needs several of them at
-				// once (e.g. a trace-scope condition satisfied by an integer on one span and
-				// by a float on another); every class involved is named
-				if len(narrowed) > 0 {
-					pairs = narrowed
+				if len(cands) == 0 {
+					set["C09/"+p.Parts[0].Mechanism+"/same-go-types"] = true
+				}
+				for _, c := range cands {
+					set["C09/"+c.part.Mechanism+"/"+c.cls] = true
 				}
 			}
-			if len(pairs) == 0 {
-				pairs = []string{"same-go-types"}
-			}
-			for _, pr := range pairs {
-				set["C09/"+p.Mechanism+"/"+pr] = true
+			if len(set) > 0 {
+				break // whole-rule probes only when no single condition / key field shows it
 			}
 		}
 		if len(set) == 0 {
@@ -1236,15 +1266,22 @@ func (g *c09Rig) runCase(tr *c09Trace, smp c09Sampler, variants []c09Variant, or
 	}
 	nameOrder := func(v c09Variant, ord []int) []string {
 		set := map[string]bool{}
-		for _, p := range probes {
-			pc := probeCfg(p)
-			ea, _, p1, _ := g.decide(pc, tr, v, ident)
-			eb, _, p2, _ := g.decide(pc, tr, v, ord)
-			if p1 != "" || p2 != "" {
-				continue
+		for _, level := range [][]*c09Probe{probes, ruleProbes} {
+			for _, p := range level {
+				pc := probeCfg(p)
+				ea, _, p1, _ := g.decide(pc, tr, v, ident)
+				eb, _, p2, _ := g.decide(pc, tr, v, ord)
+				if p1 != "" || p2 != "" {
+					continue
+				}
+				if same, _ := c09Same(ea.Out, eb.Out); !same {
+					for _, part := range p.Parts {
+						set["C09/"+part.Mechanism+"/span-order"] = true
+					}
+				}
 			}
-			if same, _ := c09Same(ea.Out, eb.Out); !same {
-				set["C09/"+p.Mechanism+"/span-order"] = true
+			if len(set) > 0 {
+				break
 			}
 		}
 		if len(set) == 0 {
